@@ -309,7 +309,7 @@ theorem defer_changes_nothing (p : Program) (hd : p.cfg.deferAcyclic = false)
     (runProgram { p with cfg := { p.cfg with deferAcyclic := true } }).2 = (runProgram p).2 := by
   unfold runProgram
   have hc : CtxSame p.ctx ({ p with cfg := { p.cfg with deferAcyclic := true } } : Program).ctx :=
-    ⟨rfl, rfl, rfl, rfl, rfl⟩
+    ⟨rfl, rfl, rfl, rfl, rfl, rfl⟩
   exact runOps_sim hc hd p.fns p.ops 0 {} {} []
     ⟨rfl, rfl, rfl, rfl, rfl, rfl, rfl, rfl, fun _ => ⟨rfl, rfl, rfl, rfl, rfl, rfl, rfl, rfl, rfl, rfl⟩⟩ EagerInv.init hnc
 
